@@ -14,13 +14,13 @@ def sh(cmd, cwd=None, timeout=3600):
     return p.returncode, (p.stdout + p.stderr)
 
 
-def run_demo(name, rayon=False, hooks=False, release=False):
+def run_demo(name, rayon=False, hooks=False, release=False, no_run=False):
     feats = []
     if rayon:
         feats.append("rayon")
     if hooks:
         feats.append("verif-hooks")
-    cmd = ["cargo", "test", "--offline", "--test", name] + (["--release"] if release else []) + (["--features", ",".join(feats)] if feats else [])
+    cmd = ["cargo", "test", "--offline", "--test", name] + (["--release"] if release else []) + (["--no-run"] if no_run else []) + (["--features", ",".join(feats)] if feats else [])
     return sh(cmd, cwd=WT)
 
 
@@ -62,7 +62,7 @@ def main():
                 text = open(demo).read()
                 rayon = "rayon" in text
                 hooks = "verif_" in text
-                rc_with, out_with = run_demo(name, rayon, hooks)
+                rc_with, out_with = run_demo(name, rayon, hooks, no_run=is_c18)
                 release = False
                 if rc_with == 0 and not is_c18:
                     # some changes only show without debug assertions
@@ -70,7 +70,7 @@ def main():
                     rc_with, out_with = run_demo(name, rayon, hooks, release=True)
                     res["demo_profile"] = "release"
                 sh(["git", "checkout", "--", "src", "evenio_macros", "Cargo.toml"], cwd=WT)
-                rc_without, out_without = run_demo(name, rayon, hooks, release=release)
+                rc_without, out_without = run_demo(name, rayon, hooks, release=release, no_run=is_c18)
                 if is_c18:
                     # compile-time property: the demo compiles only with the change
                     res["demo_compiles_with_patch"] = rc_with == 0
